@@ -91,7 +91,7 @@ Definition rule_step (r : crule * option (list Z)) (w : list mreport) : outcome 
   | None => Ok (Nxt w)
   | Some res =>
       bind (fill in_range src off text md_zero (fst r) res) (fun md =>
-      bind (handle re_match l (fst r) md) (fun out =>
+      bind (handle re_match l src (fst r) md) (fun out =>
       match out with Some rep => Ok (Brk (w ++ [rep])) | None => Ok (Nxt w) end))
   end.
 
@@ -106,6 +106,6 @@ Proof.
   cbn [range_loop run_comment_rules]. rewrite Hb. unfold rule_step, try_rule. cbn [fst snd].
   destruct m as [res|]; cbn [bind]; [|apply IH].
   destruct (fill in_range src off text md_zero r res) as [md|p]; cbn [bind]; [|reflexivity].
-  destruct (handle re_match l r md) as [[rep|]|p]; cbn [bind]; [reflexivity|apply IH|reflexivity].
+  destruct (handle re_match l src r md) as [[rep|]|p]; cbn [bind]; [reflexivity|apply IH|reflexivity].
 Qed.
 End Bridge.
